@@ -217,6 +217,8 @@ func (e *emitter) stmt(ind int, s M) {
 			c += ".await_sync"
 		}
 		e.w(ind, assign(s, c))
+	case "tcall":
+		e.w(ind, fmt.Sprintf("return %s%s(%s)", s["f"], e.suffix, args(s["args"].(L))))
 	case "callc":
 		e.w(ind, assign(s, fmt.Sprintf("%s.(%s)", s["c"], args(s["args"].(L)))))
 	case "next":
@@ -262,8 +264,13 @@ func (e *emitter) defs(p M) {
 	for _, n := range names {
 		d := defs[n].(M)
 		var ps []string
-		for _, q := range d["params"].(L) {
-			ps = append(ps, q.(string)+": Int")
+		pt, _ := d["ptypes"].(L)
+		for i, q := range d["params"].(L) {
+			ty := "Int"
+			if i < len(pt) {
+				ty = pt[i].(string)
+			}
+			ps = append(ps, q.(string)+": "+ty)
 		}
 		star := ""
 		if d["gen"].(bool) {
